@@ -64,7 +64,24 @@ def liveness_sweep(ctx, pid):
                 if os.path.exists(s_):
                     (shutil.copytree if os.path.isdir(s_) else shutil.copy)(s_, os.path.join(tmp, f))
             ok_apply = True
-            for (fn, old, new) in m["edits"]:
+            for ed in m["edits"]:
+                if ed[0] == "re":
+                    import glob
+                    import re as _re
+                    hits = 0
+                    for p_ in glob.glob(os.path.join(tmp, "src", "*.rs")) + glob.glob(os.path.join(tmp, "tests", "*.rs")) + glob.glob(os.path.join(tmp, "benches", "*.rs")):
+                        if len(ed) > 3 and not p_.endswith(ed[3]):
+                            continue
+                        txt = open(p_).read()
+                        new_txt, n_ = _re.subn(ed[1], ed[2], txt)
+                        hits += n_
+                        if n_:
+                            open(p_, "w").write(new_txt)
+                    if hits == 0:
+                        ok_apply = False
+                        break
+                    continue
+                (fn, old, new) = ed
                 p_ = os.path.join(tmp, fn)
                 txt = open(p_).read()
                 if txt.count(old) != 1:
